@@ -80,6 +80,25 @@ IsUrlCase(c) ==
           c = [v |-> Concat([i \in 1..Len(sch) |-> Enc(sch[i], e[i]) \o (IF i = p THEN it ELSE <<>>)]) \o Rest,
                fam |-> "inter"]
 
+\* references whose value does not fit a byte (the port keeps the low byte: deviation (e)), and the two non-ASCII
+\* letters that upper-case to ASCII, at each of the first positions of each scheme -- compared with the specification's
+\* isBlackURL in both directions (C07 only; C19's quantifier does not speak about them)
+DecDigits3(v) == <<48 + (v \div 100), 48 + ((v \div 10) % 10), 48 + (v % 10)>>
+WideRef(b, k) ==
+  CASE k = 1 -> <<38, 35, 120, 49>> \o HexDigits(b, FALSE) \o <<59>>                 \* &#x1hh;   256 + b
+    [] k = 2 -> <<38, 35, 88, 50>> \o (IF b < 16 THEN <<48>> ELSE <<>>) \o HexDigits(b, TRUE)      \* &#X2HH    512 + b
+    [] k = 3 -> <<38, 35>> \o DecDigits3(256 + b) \o <<59>>                           \* &#ddd;
+    [] k = 4 -> <<38, 35, 120, 49, 48, 48>> \o (IF b < 16 THEN <<48>> ELSE <<>>) \o HexDigits(b, FALSE) \o <<59>>   \* &#x100hh; 65536 + b
+    [] k = 5 -> <<38, 35, 120, 49, 51, 49, 59>>                                       \* &#x131;  dotless i
+    [] k = 6 -> <<38, 35, 120, 49, 55, 102, 59>>                                      \* &#x17f;  long s
+    [] k = 7 -> <<38, 35, 51, 48, 53, 59>>                                            \* &#305;
+    [] k = 8 -> <<38, 35, 51, 56, 51, 59>>                                            \* &#383;
+IsWideCase(c) ==
+  \E si \in 1..4 : LET sch == SchemeSeq[si] IN
+    \E p \in 1..Len(sch) : \E k \in 1..8 : \E up \in BOOLEAN :
+      c = [v |-> Concat([i \in 1..Len(sch) |-> IF i = p THEN WideRef(sch[i], k) ELSE <<(IF up THEN UpB(sch[i]) ELSE sch[i])>>]) \o Rest,
+           fam |-> "wide"]
+
 ----------------------------------------------------------------------------
 \* the vector grammar (C04), over the Baseline lists
 
@@ -183,6 +202,7 @@ Init ==
   /\ stage = 0
   /\ \/ Mode = "dec" /\ \E w \in AllStrings \cup Templates : x = [v |-> w, fam |-> "dec"]
      \/ Mode = "url" /\ IsUrlCase(x)
+     \/ Mode = "urlwide" /\ IsWideCase(x)
      \/ Mode = "vec" /\ IsVecCase(x)
      \/ Mode = "pred" /\ IsPredCase(x)
 Next == stage = 0 /\ stage' = 1 /\ UNCHANGED x
@@ -199,13 +219,14 @@ Prop ==
   stage = 1 =>
   CASE Mode = "dec" -> DecoderContract
     [] Mode = "url" -> IsBlackURL(x.v)
+    [] Mode = "urlwide" -> TRUE
     [] Mode = "vec" -> TRUE                        \* prediction exported; the real code decides
     [] Mode = "pred" -> TRUE
 
 Export ==
   (DoExport /\ stage = 1) =>
     CASE Mode = "dec" -> PrintT(ToJson([in |-> x.v, r |-> RefValue(x.v)]))
-      [] Mode = "url" -> PrintT(ToJson([in |-> x.v, fam |-> x.fam, pred |-> IsBlackURL(x.v)]))
+      [] Mode \in {"url", "urlwide"} -> PrintT(ToJson([in |-> x.v, fam |-> x.fam, pred |-> IsBlackURL(x.v)]))
       [] Mode = "vec" -> PrintT(ToJson([in |-> x.v, fam |-> x.fam, pred |-> IsXssSpec(x.v)]))
       [] Mode = "pred" -> PrintT(ToJson([in |-> x.v, f |-> x.fam,
                                          r |-> IF x.fam = "tag" THEN (IF IsBlackTag(x.v) THEN 1 ELSE 0) ELSE IsBlackAttr(x.v)]))
